@@ -165,3 +165,97 @@ func H_C05_merge() {
 		vfReach("checked")
 	})
 }
+
+// H_C05_failed_write: call A's request cannot be written (congested link) and fails when A gives
+// up; call B is in flight meanwhile; call C starts after A has failed. The ids of B and C on the
+// wire differ, and each of them receives the reply to its own request (the peer echoes bodies).
+func H_C05_failed_write() {
+	conn := newZZConn()
+	conn.wch = make(chan *goatorepo.Rpc, 8)
+	conn.congestData = 65 // A's request body is not accepted by the link
+	rm := NewRpcMultiplexer(conn)
+	ctxA, cancelA := context.WithCancel(context.Background())
+	aStarted := make(chan struct{})
+	aDone := make(chan struct{})
+	var aErr error
+	var bBody, cBody *goatorepo.Body
+	var bErr, cErr error
+	bDone, cDone := false, false
+	go func() {
+		close(aStarted)
+		_, aErr = rm.CallUnaryMethod(ctxA, zzHdr(), &goatorepo.Body{Data: []byte{65}}, nil)
+		close(aDone)
+	}()
+	go func() { cancelA() }()
+	go func() {
+		<-aStarted
+		bBody, bErr = rm.CallUnaryMethod(context.Background(), zzHdr(), &goatorepo.Body{Data: []byte{66}}, nil)
+		bDone = true
+	}()
+	go func() {
+		<-aDone
+		cBody, cErr = rm.CallUnaryMethod(context.Background(), zzHdr(), &goatorepo.Body{Data: []byte{67}}, nil)
+		cDone = true
+	}()
+	go func() {
+		// the peer: answers every request it sees with the request's own body (C's first, so that a
+		// reply routed by a reused id reaches the wrong caller)
+		var pending []*goatorepo.Rpc
+		for len(pending) < 2 {
+			pending = append(pending, <-conn.wch)
+		}
+		for i := len(pending) - 1; i >= 0; i-- {
+			w := pending[i]
+			conn.in <- &goatorepo.Rpc{Id: w.Id, Header: zzRespHdr(), Body: &goatorepo.Body{Data: w.Body.Data}, Trailer: &goatorepo.Trailer{}}
+		}
+	}()
+	vfAtQuiescence(func() {
+		vfAssert(aErr != nil, "call-whose-request-could-not-be-written-fails")
+		vfAssert(bDone && cDone, "other-calls-return")
+		if !bDone || !cDone {
+			return
+		}
+		vfAssert(bErr == nil && bBody != nil && len(bBody.Data) == 1 && bBody.Data[0] == 66, "in-flight-call-gets-its-own-reply")
+		vfAssert(cErr == nil && cBody != nil && len(cBody.Data) == 1 && cBody.Data[0] == 67, "later-call-gets-its-own-reply")
+		ids := map[uint64]int{}
+		for _, w := range conn.out {
+			ids[w.Id]++
+		}
+		for _, n := range ids {
+			vfAssert(n == 1, "wire-ids-pairwise-distinct")
+		}
+		vfReach("checked")
+	})
+}
+
+// H_C05_blocked_write: call A's request is stuck in a congested link for as long as the scenario
+// lasts (its context never ends). Calls started meanwhile are not held up by it: B's request is
+// written, and B receives its own reply.
+func H_C05_blocked_write() {
+	conn := newZZConn()
+	conn.wch = make(chan *goatorepo.Rpc, 8)
+	conn.congestData = 65
+	rm := NewRpcMultiplexer(conn)
+	var bBody *goatorepo.Body
+	var bErr error
+	bDone := false
+	go func() {
+		vfHarnessGoroutine()
+		rm.CallUnaryMethod(context.Background(), zzHdr(), &goatorepo.Body{Data: []byte{65}}, nil)
+	}()
+	go func() {
+		bBody, bErr = rm.CallUnaryMethod(context.Background(), zzHdr(), &goatorepo.Body{Data: []byte{66}}, nil)
+		bDone = true
+	}()
+	go func() {
+		w := <-conn.wch
+		conn.in <- &goatorepo.Rpc{Id: w.Id, Header: zzRespHdr(), Body: &goatorepo.Body{Data: w.Body.Data}, Trailer: &goatorepo.Trailer{}}
+	}()
+	vfAtQuiescence(func() {
+		vfAssert(bDone, "call-not-held-up-by-another-calls-stuck-write")
+		if bDone {
+			vfAssert(bErr == nil && bBody != nil && len(bBody.Data) == 1 && bBody.Data[0] == 66, "gets-its-own-reply")
+		}
+		vfReach("checked")
+	})
+}
